@@ -23,9 +23,8 @@ type IndEntity struct {
 	NOut    int                 // number of output channels
 	NCfg    int                 // number of period parameters Make understands
 	Make    func(c []int) any   // c == nil: the default constructor
-	Implied func(c []int) int   // warm-up implied by the formula, for the types without IdlePeriod()
+	Implied func(inst any) int  // warm-up implied by the formula, for the types without IdlePeriod()
 	NoScale bool                // configuration is derived by the constructor; do not scale fields
-	Defs    []int               // default periods in Make order (for the implied warm-up of defaults)
 }
 
 func sorted(c []int) []int {
@@ -37,7 +36,7 @@ func sorted(c []int) []int {
 // Indicators is the catalogue of all 61 indicator types (62 entries: Envelope has two bases).
 var Indicators = []*IndEntity{
 	// ---- trend
-	{Name: "trend.Apo", Sig: "c", NOut: 1, NCfg: 2, Defs: []int{12, 26},
+	{Name: "trend.Apo", Sig: "c", NOut: 1, NCfg: 2,
 		Make: func(c []int) any {
 			a := trend.NewApo[F]()
 			if c != nil {
@@ -46,8 +45,8 @@ var Indicators = []*IndEntity{
 			}
 			return a
 		},
-		Implied: func(c []int) int { return sorted(c)[1] - 1 }},
-	{Name: "trend.Aroon", Sig: "hl", NOut: 2, NCfg: 1, Defs: []int{25},
+		Implied: func(inst any) int { return inst.(*trend.Apo[F]).SlowPeriod - 1 }},
+	{Name: "trend.Aroon", Sig: "hl", NOut: 2, NCfg: 1,
 		Make: func(c []int) any {
 			a := trend.NewAroon[F]()
 			if c != nil {
@@ -55,8 +54,8 @@ var Indicators = []*IndEntity{
 			}
 			return a
 		},
-		Implied: func(c []int) int { return c[0] - 1 }},
-	{Name: "trend.Bop", Sig: "ohlc", NOut: 1, Make: func(c []int) any { return trend.NewBop[F]() }, Implied: func([]int) int { return 0 }},
+		Implied: func(inst any) int { return inst.(*trend.Aroon[F]).Period - 1 }},
+	{Name: "trend.Bop", Sig: "ohlc", NOut: 1, Make: func(c []int) any { return trend.NewBop[F]() }, Implied: func(any) int { return 0 }},
 	{Name: "trend.Cci", Sig: "hlc", NOut: 1, NCfg: 1, Make: func(c []int) any {
 		if c == nil {
 			return trend.NewCci[F]()
@@ -136,13 +135,13 @@ var Indicators = []*IndEntity{
 	}},
 	{Name: "trend.MovingMax", Sig: "c", NOut: 1, NCfg: 1, Make: func(c []int) any {
 		if c == nil {
-			return trend.NewMovingMax[F]()
+			return trend.NewMovingMaxWithPeriod[F](5) // the plain constructor leaves the period unset (0)
 		}
 		return trend.NewMovingMaxWithPeriod[F](c[0])
 	}},
 	{Name: "trend.MovingMin", Sig: "c", NOut: 1, NCfg: 1, Make: func(c []int) any {
 		if c == nil {
-			return trend.NewMovingMin[F]()
+			return trend.NewMovingMinWithPeriod[F](5) // the plain constructor leaves the period unset (0)
 		}
 		return trend.NewMovingMinWithPeriod[F](c[0])
 	}},
@@ -197,7 +196,7 @@ var Indicators = []*IndEntity{
 		}
 		return trend.NewTsiWith[F](c[0], c[1])
 	}},
-	{Name: "trend.TypicalPrice", Sig: "hlc", NOut: 1, Make: func(c []int) any { return trend.NewTypicalPrice[F]() }, Implied: func([]int) int { return 0 }},
+	{Name: "trend.TypicalPrice", Sig: "hlc", NOut: 1, Make: func(c []int) any { return trend.NewTypicalPrice[F]() }, Implied: func(any) int { return 0 }},
 	{Name: "trend.Vwma", Sig: "cv", NOut: 1, NCfg: 1, Make: func(c []int) any {
 		v := trend.NewVwma[F]()
 		if c != nil {
@@ -473,16 +472,7 @@ func makeInd(e *IndEntity, cfg []int, scale int) *IndInstance {
 	if m := v.MethodByName("IdlePeriod"); m.IsValid() {
 		ii.Idle = int(m.Call(nil)[0].Int())
 	} else if e.Implied != nil {
-		eff := c
-		if eff == nil {
-			eff = append([]int(nil), e.Defs...)
-			if scale > 1 {
-				for i := range eff {
-					eff[i] = max(1, (eff[i]+scale-1)/scale)
-				}
-			}
-		}
-		ii.Idle = e.Implied(eff)
+		ii.Idle = e.Implied(inst)
 	} else {
 		panic("no warm-up known for " + e.Name)
 	}
